@@ -101,12 +101,13 @@ def run_obligations(scratch, obls, tier, jobs=None, timeout_s=None, mem_gb=None)
         res["checks_total"] = pdet.get(o["fq"], {}).get("total_properties")
         e = errs.get(o["fq"], {})
         checks = r.get("checks", [])
-        failed = [c for c in checks if c.get("status") == "Failure" or c.get("status") == "FAILURE"]
+        # CBMC's --nan-check ("NaN on addition" ...) flags IEEE operations that yield NaN: not a Rust panic, not a property
+        failed = [c for c in checks if c.get("status") in ("Failure", "FAILURE") and c.get("category") != "NaN"]
         covers = [c for c in checks if c.get("category") == "cover" or "cover" in str(c.get("property_class", ""))]
         cover_ok = (pdet.get(o["fq"], {}).get("satisfied") or 0) >= 1
         if e.get("exit_status") == "timeout":
             res.update(status="inconclusive", reason=f"CBMC timed out after {timeout_s}s")
-        elif r.get("status") == "Success":
+        elif r.get("status") == "Success" or (checks and not failed and not any(c.get("status") in ("Error", "Undetermined") and c.get("category") != "NaN" for c in checks) and e.get("exit_status") == "properties_failed"):
             if not cover_ok:
                 res.update(status="inconclusive", reason="vacuity: reachability cover point not satisfied")
             else:
